@@ -68,14 +68,14 @@ func (c *CriteriaMixing) Apply(
 	props *model.BiasProps,
 	listener *model.BiasListener,
 ) *model.BiasedResult {
+	parsedProps := parseProps(props)
+	referenceCriterionProvider := c.referenceCriteriaManager.ForParams(props)
 	if current.Criteria.Len() < 2 {
 		return &model.BiasedResult{DMP: current}
 	}
-	parsedProps := parseProps(props)
 	generator := c.generatorSource(parsedProps.RandomSeed)
 	c2m := selectCriteriaToMix(current, generator)
 	allAlternatives := current.AllAlternatives()
-	referenceCriterionProvider := c.referenceCriteriaManager.ForParams(props)
 	referenceCriterion := referenceCriterion(current, listener, referenceCriterionProvider)
 	targetValRange := model.ValuesRangeWithGroundZero(&allAlternatives, referenceCriterion)
 	mixResult := c2m.mix(&allAlternatives, targetValRange, parsedProps)
